@@ -137,6 +137,10 @@ def iv_pair(acc, mods, kind, fa, fb, z=None, native=True):
     if fa > fb:
         return
     a, b = _mk(pendulum, kind, fa, z), _mk(pendulum, kind, fb, z)
+    if kind == "fixed" and (fa[2] + fb[2]) % 2:
+        # the same offset carried by a DISTINCT FixedTimezone instance (what unpickling in another process, or a
+        # hand-built FixedTimezone, gives): still one zone
+        b = pendulum.DateTime(*fb, tzinfo=pendulum.FixedTimezone(19800))
     if kind == "zone":
         if obs.fields(a) != tuple(fa) or obs.fields(b) != tuple(fb) or obs.offset_s(a) != obs.offset_s(b) \
                 or obs.is_repeated_wall(z, fb):
